@@ -130,6 +130,9 @@ func (r *raffle) returnTicket(ticket *ticket) {
 }
 
 func (r *raffle) runningJob(jobid string) *runState {
+	r.runningMu.Lock()
+	defer r.runningMu.Unlock()
+
 	state, ok := r.runningJobs[jobid]
 	if ok {
 		return state
@@ -137,6 +140,14 @@ func (r *raffle) runningJob(jobid string) *runState {
 	return nil
 }
 
+// getRunningJobs returns a copy: jobs start and finish while the caller goes through the result
 func (r *raffle) getRunningJobs() map[string]*runState {
-	return r.runningJobs
+	r.runningMu.Lock()
+	defer r.runningMu.Unlock()
+
+	result := make(map[string]*runState, len(r.runningJobs))
+	for id, state := range r.runningJobs {
+		result[id] = state
+	}
+	return result
 }
